@@ -17,7 +17,7 @@ COQ = os.path.join(VERIF, "coq")
 
 # property -> operations whose model/implementation agreement the property's theorems rest on, with case counts
 CONE = {
-    "C01": [("tok_roundtrip", 400), ("util", 150), ("digitise", 60)],
+    "C01": [("tok_roundtrip", 400), ("tok_stateful", 100), ("util", 150), ("digitise", 60)],
     "C02": [("vocab", 40), ("tok_roundtrip", 250), ("tok_stream", 250)],
     "C03": [("tok_stateful", 400)],
     "C04": [("history", 350), ("scale_down", 150), ("to_abs", 200), ("to_rel", 200), ("rel_abs_rel", 200), ("getters", 120)],
@@ -25,11 +25,11 @@ CONE = {
     "C06": [("qnl", 700), ("pairings", 300)],
     "C07": [("normalise", 900), ("concat_repeat", 300)],
     "C08": [("split", 800), ("concat_repeat", 300)],
-    "C09": [("split_bars", 500), ("bar", 200)],
+    "C09": [("split_bars", 500), ("bar", 200), ("comp_file", 100)],
     "C10": [("bar", 700)],
-    "C11": [("history", 250), ("bar", 200), ("split_bars", 150), ("pad", 150), ("tok_roundtrip", 150), ("composition", 100), ("util", 250)],
-    "C12": [("midi_events", 300), ("midi_roundtrip", 400)],
-    "C13": [("midi_load", 600)],
+    "C11": [("history", 250), ("bar", 200), ("split_bars", 150), ("pad", 150), ("tok_roundtrip", 150), ("tok_stream", 200), ("composition", 100), ("util", 250)],
+    "C12": [("midi_events", 300), ("midi_roundtrip", 400), ("midi_roundtrip_mi", 250)],
+    "C13": [("midi_load", 600), ("comp_file", 200)],
     "C14": [("transpose_rel", 600), ("history", 150), ("composition", 120)],
     "C15": [("merge", 600)],
     "C16": [("history", 450), ("composition", 150), ("concat_repeat", 150)],
